@@ -6,7 +6,7 @@
    accept (wf) and it is classifiable (template identification present, or content that TID 1410 / 1411 do not
    share). *)
 From Coq Require Import String ZArith List Bool.
-From HD Require Import Base.Val C16_Model C16_Proofs C16_Proofs_Acc C16_Proofs_Mixed.
+From HD Require Import Base.Val C16_Model C16_Proofs C16_Proofs_Acc C16_Proofs_Mixed C16_Proofs_Codes.
 Import ListNotations.
 Open Scope Z_scope.
 
@@ -117,6 +117,70 @@ Theorem C16_accessors_identity_image : forall g, wf g = true -> g_kind g = Image
   acc_source_images (build g) = match g_ref g with SourceImgs l => l | _ => [] end.
 Proof. exact acc_source_images_build. Qed.
 Print Assumptions C16_accessors_identity_image.
+
+(* ---- coded concepts: the integer a CODE value / filter stands for is the key of (code value, coding scheme
+        designator, coding scheme version); on the range used the key is injective, so the integer comparison
+        of the model is exactly the comparison pydicom Code.__eq__ / highdicom CodedConcept.__eq__ make, a
+        code WITH a scheme version included: it matches the identical versioned code and neither the
+        un-versioned one nor another version ------------------------------------------------------------- *)
+Theorem C16_code_key_is_code_equality : forall a b, cc_ok a = true -> cc_ok b = true ->
+  (cc_key a =? cc_key b) = cc_eqb a b /\ (cc_key a = cc_key b -> a = b).
+Proof. intros a b Ha Hb. split; [exact (cc_key_eqb a b Ha Hb) | exact (cc_key_inj a b Ha Hb)]. Qed.
+Print Assumptions C16_code_key_is_code_equality.
+
+Theorem C16_code_version_distinguishes : forall v s k k',
+  cc_eqb (CC v s (Some k)) (CC v s None) = false /\
+  cc_eqb (CC v s None) (CC v s (Some k)) = false /\
+  (k <> k' -> cc_eqb (CC v s (Some k)) (CC v s (Some k')) = false) /\
+  cc_eqb (CC v s (Some k)) (CC v s (Some k)) = true.
+Proof. exact cc_version_distinguishes. Qed.
+Print Assumptions C16_code_version_distinguishes.
+
+(* the exactness equations read on coded concepts: cf g / cs g are the finding type / finding sites group g
+   was constructed with, ffind / fsite the codes given as filters; `sat_cc` compares them with cc_eqb *)
+Theorem C16_query_exact_planar_coded : forall pre gs f ffind fsite cf cs,
+  no_im pre = true -> Forall good gs -> check_planar f = Ok tt ->
+  coded_filter f ffind fsite -> (forall g, In g gs -> coded_group g (cf g) (cs g)) ->
+  get_planar (report pre gs) f
+  = Ok (map build (filter (fun g => kind_eqb (g_kind g) Planar && sat_cc f ffind fsite cf cs g) gs)).
+Proof. exact query_exact_planar_coded. Qed.
+Print Assumptions C16_query_exact_planar_coded.
+
+Theorem C16_query_exact_volumetric_coded : forall pre gs f ffind fsite cf cs,
+  no_im pre = true -> Forall good gs -> check_volumetric f = Ok tt ->
+  coded_filter f ffind fsite -> (forall g, In g gs -> coded_group g (cf g) (cs g)) ->
+  get_volumetric (report pre gs) f
+  = Ok (map build (filter (fun g => kind_eqb (g_kind g) Volumetric && sat_cc f ffind fsite cf cs g) gs)).
+Proof. exact query_exact_volumetric_coded. Qed.
+Print Assumptions C16_query_exact_volumetric_coded.
+
+Theorem C16_query_exact_image_coded : forall pre gs f ffind fsite cf cs,
+  no_im pre = true -> Forall good gs ->
+  coded_filter f ffind fsite -> (forall g, In g gs -> coded_group g (cf g) (cs g)) ->
+  get_image (report pre gs) f
+  = Ok (map build (filter (fun g => kind_eqb (g_kind g) ImageK && sat_image_cc f ffind fsite cf cs g) gs)).
+Proof. exact query_exact_image_coded. Qed.
+Print Assumptions C16_query_exact_image_coded.
+
+(* non-vacuity: four planar groups whose finding is the same code value un-versioned, in version 0, in
+   version 1 and in another scheme; the filter "version 0" returns the second one only, the un-versioned
+   filter the first one only *)
+Definition ex_cc (s : Z) (ver : option Z) : ccode := CC 110 s ver.
+Definition ex_cgs : list group :=
+  map (fun '(tid, c) => Group Planar 1 tid None (Some (cc_key c)) None [cc_key c] (Region2D 4 0 3) [] [] None None None true)
+      [(1000, ex_cc 0 None); (1001, ex_cc 0 (Some 0)); (1002, ex_cc 0 (Some 1)); (1003, ex_cc 1 (Some 0))].
+Example C16_coded_nonvacuous :
+  Forall good ex_cgs /\
+  coded_filter (Filt None (Some (ck 110 0 (Some 0))) (Some (ck 110 0 (Some 0))) None GNone None None)
+               (Some (ex_cc 0 (Some 0))) (Some (ex_cc 0 (Some 0))) /\
+  positions (get_planar (report [] ex_cgs) (Filt None (Some (ck 110 0 (Some 0))) None None GNone None None))
+    = VL [VZ 1001] /\
+  positions (get_planar (report [] ex_cgs) (Filt None None (Some (ck 110 0 (Some 1))) None GNone None None))
+    = VL [VZ 1002] /\
+  positions (get_planar (report [] ex_cgs) (Filt None (Some 110) None None GNone None None)) = VL [VZ 1000] /\
+  positions (get_planar (report [] ex_cgs) (Filt None (Some (ck 110 1 None)) None None GNone None None)) = VL [].
+Proof. repeat split; try (repeat constructor); vm_compute; reflexivity. Qed.
+Print Assumptions C16_coded_nonvacuous.
 
 (* ---- non-vacuity: a concrete mixed report satisfies the hypotheses, the answer is neither empty nor total -- *)
 Definition ex_gs : list group :=
